@@ -47,7 +47,14 @@ func zzHistory(ctx context.Context, s *Store[*zh.Hdr], chain []*zh.Hdr, K, L int
 			zz.Reach("faults-armed")
 		}
 		var f func(*Store[*zh.Hdr])
-		switch zz.Choice("op", 3) {
+		switch zz.Choice("op", 3+zz.Param("EMPTYAPPEND", 0)) {
+		case 3:
+			// an Append of nothing (a caller handing over an empty or nil batch) is harmless
+			f = func(s *Store[*zh.Hdr]) {
+				var none []*zh.Hdr
+				zz.Assert(s.Append(ctx, none...) == nil, "Append of no headers is accepted")
+				zz.Reach("empty-append")
+			}
 		case 0:
 			i := zz.Choice("app.i", K)
 			j := i + zz.Choice("app.len", K-i)
